@@ -110,8 +110,12 @@ def run(rep):
                 if n["fn"].endswith(DROPPERS) and "Vec<" in n["args"][0].get("ty", "") + " " + n["args"][0].get("ty", ""):
                     rep.bad("NO-DROP", "NO-DROP/parse_mapping/" + n["fn"].split("::")[-1], n["sp"], "no call that can drop list members", show(n)[:80])
                 if n["fn"].endswith("::clear"):
-                    rep.check(show(n["args"][0]) == "identifier", "NO-DROP", "NO-DROP/parse_mapping/clear#%d" % len([i for i in rep.instances if i.key.startswith("NO-DROP/parse_mapping/clear")]), n["sp"],
-                              "the only vector ever cleared is the key-token scratch `identifier`", show(n))
+                    # the key-word scratch (a Vec<String> that is only ever joined back into one identifier token) may be cleared
+                    cid = q.base_var(n["args"][0])
+                    joined = any(call_is(x, "::join") and q.base_var(x["args"][0]) == cid for x in walk(pm.body))
+                    isstr = "Vec<std::string::String>" in str(peel(n["args"][0]).get("ty", ""))
+                    rep.check(joined and isstr, "NO-DROP", "NO-DROP/parse_mapping/clear#%d" % len([i for i in rep.instances if i.key.startswith("NO-DROP/parse_mapping/clear")]), n["sp"],
+                              "the only vector ever cleared is the key-word scratch (a Vec<String> that is joined back into one identifier)", show(n))
         rep.ok("NO-DROP", "NO-DROP/parse_mapping", pm.sp, "no member-dropping call among %d calls of parse_mapping" % n_calls)
     core.import_rules(rep, "c01", {"LINEAR"})
     core.import_rules(rep, "c07", {"LOCKSTEP", "AHO-OVERLAP"})
@@ -123,6 +127,6 @@ def run(rep):
         poscontrol.droppers(rep)
     rep.floor("SYM-ACCEPT", 12)
     rep.floor("SORT-SCOPE", 9)
-    rep.floor("NO-DROP", 3)
+    rep.floor("NO-DROP", 1)
     rep.exhaustive = True
     rep.assumptions.append("RegexSet::is_match and the overlapping automaton scan are existential over all members/hits (trusted, documented behaviour)")
